@@ -169,3 +169,101 @@ func TestPropConcurrentFold(t *testing.T) {
 		}
 	})
 }
+
+// TestPropParallelAdds: a collection handler registered with Parallel(true); several
+// goroutines add distinct values at index 0 of the same collection at the same time. Every
+// add is its own database transaction, so whatever the interleaving the collection ends up
+// with every value exactly once, one add event was published for each, and it is the same
+// after a reopen.
+func TestPropParallelAdds(t *testing.T) {
+	rapid.Check(t, func(rt *rapid.T) {
+		cfg := Cfg{Pkg: rapid.SampledFrom([]string{"middleware", "resbadger"}).Draw(rt, "pkg"), Typed: rapid.Bool().Draw(rt, "typed"), Default: rapid.Bool().Draw(rt, "default"), ParallelColl: true}
+		workers := rapid.SampledFrom([]int{2, 4, 8}).Draw(rt, "workers")
+		gs := rapid.IntRange(2, 6).Draw(rt, "goroutines")
+		each := rapid.IntRange(3, 20).Draw(rt, "each")
+		f := &fixture{cfg: cfg, dir: bdb.TempDir("c20p"), workers: workers, quiet: true}
+		defer os.RemoveAll(f.dir)
+		if err := f.open(); err != nil {
+			rt.Fatalf("VERIF-INCONCLUSIVE: %v", err)
+		}
+		defer f.close()
+		rid := "svc.c.1"
+		var wg sync.WaitGroup
+		var mu sync.Mutex
+		applied := map[string]bool{}
+		conflicts := 0
+		for g := 0; g < gs; g++ {
+			wg.Add(1)
+			go func(g int) {
+				defer wg.Done()
+				for j := 0; j < each; j++ {
+					v := fmt.Sprintf("g%d-%d", g, j)
+					done := make(chan interface{}, 1)
+					if err := f.s.With(rid, func(r res.Resource) {
+						defer func() { done <- recover() }()
+						r.AddEvent(v, 0)
+					}); err != nil {
+						done <- err
+					}
+					// (an add may lose a transaction conflict against another one: it then fails,
+					// and must have stored and published nothing)
+					p := <-done
+					mu.Lock()
+					if p == nil {
+						applied[v] = true
+					} else {
+						conflicts++
+					}
+					mu.Unlock()
+				}
+			}(g)
+		}
+		wg.Wait()
+		base := 0
+		if cfg.Default {
+			base = 2
+		}
+		check := func(when string) {
+			got, ok, err := f.get(rid)
+			if err != nil {
+				rt.Fatalf("VERIF-INCONCLUSIVE: %v", err)
+			}
+			var l []interface{}
+			_ = json.Unmarshal([]byte(got), &l)
+			seen := map[string]int{}
+			for _, x := range l {
+				if s, ok := x.(string); ok {
+					seen[s]++
+				}
+			}
+			wrong := 0
+			for g := 0; g < gs; g++ {
+				for j := 0; j < each; j++ {
+					v := fmt.Sprintf("g%d-%d", g, j)
+					if (applied[v] && seen[v] != 1) || (!applied[v] && seen[v] != 0) {
+						wrong++
+					}
+				}
+			}
+			if (!ok && len(applied) > 0) || len(l) != base+len(applied) || wrong > 0 {
+				rt.Fatalf("%s: %d goroutines added %d values each to %s; %d add events were applied (%d failed); the collection has %d elements (expected %d), %d values are not in it as often as their add events say (cfg %+v)", when, gs, each, rid, len(applied), conflicts, len(l), base+len(applied), wrong, cfg)
+			}
+		}
+		adds := 0
+		for _, e := range f.conn.Log() {
+			if e.Kind == "pub" && e.Subject == "event."+rid+".add" {
+				adds++
+			}
+		}
+		if adds != len(applied) {
+			rt.Fatalf("%d add events were applied (%d failed), %d were published (cfg %+v)", len(applied), conflicts, adds, cfg)
+		}
+		check("after the concurrent adds")
+		f.close()
+		if err := f.open(); err != nil {
+			rt.Fatalf("VERIF-INCONCLUSIVE: reopen: %v", err)
+		}
+		check("after reopening the database")
+		ev.Case(len(applied) > gs, evid.Hash("paralleladds", fmt.Sprint(cfg), workers, gs, each), "parallel-adds", "pkg-"+cfg.Pkg)
+	})
+}
